@@ -9,6 +9,7 @@ import (
 	"fmt"
 	"go/ast"
 	"go/token"
+	"go/types"
 	"os"
 	"path/filepath"
 	"sort"
@@ -864,4 +865,80 @@ func genGetAny(p *pkg, out string) {
 		"(* b.atEnd() is `b.i == len(b.data)` (Codec.at_end), b.Err() is `b.err` *)\n" +
 		"Lemma sync_buffer_small : g_atEnd_body = \"returnb.i==len(b.data)\"%string /\\ g_Err_body = \"returnb.err\"%string.\nProof. split; reflexivity. Qed.\n"
 	os.WriteFile(filepath.Join(out, "SyncGetAny.v"), []byte(lems), 0o644)
+}
+
+// ---------------------------------------------------------------- hygiene
+
+// The statement translators recognise statements by their text.  wireHygiene makes sure the
+// names that text relies on mean what they usually mean inside the translated functions: the
+// builtins are the builtins (no package-level or local `copy`, `len`, `make`, ...), `binary`,
+// `io` and `fmt` are the standard packages, and the methods called on a wire type, on the
+// buffer and on the fixed header resolve to the declarations of this package with those names.
+// Returns the functions in which something is off (written into gen/GenWire.v as a list that
+// must be empty).
+func wireHygiene(p *pkg, keys []string) []string {
+	info, _ := p.typecheckFull()
+	builtins := map[string]bool{"len": true, "copy": true, "make": true, "append": true, "panic": true, "nil": true,
+		"true": true, "false": true, "byte": true, "uint": true, "uint16": true, "uint32": true, "int": true,
+		"int64": true, "string": true, "cap": true, "new": true, "error": true}
+	stdpkgs := map[string]string{"binary": "encoding/binary", "io": "io", "fmt": "fmt"}
+	var bad []string
+	for _, k := range keys {
+		fd := p.funcs[k]
+		if fd == nil || fd.Body == nil {
+			continue
+		}
+		ok := true
+		ast.Inspect(fd.Body, func(n ast.Node) bool {
+			id, isId := n.(*ast.Ident)
+			if !isId {
+				return true
+			}
+			obj := info.Uses[id]
+			if obj == nil {
+				obj = info.Defs[id]
+			}
+			if builtins[id.Name] {
+				// declared here, or resolving to anything but the universe: not the builtin
+				if obj == nil || obj.Parent() != types.Universe {
+					ok = false
+				}
+			}
+			if want, isStd := stdpkgs[id.Name]; isStd {
+				if pn, isPkg := obj.(*types.PkgName); !isPkg || pn.Imported().Path() != want {
+					ok = false
+				}
+			}
+			return true
+		})
+		if !ok {
+			bad = append(bad, k)
+		}
+	}
+	return bad
+}
+
+func genHygiene(p *pkg, out string) {
+	var keys []string
+	for k, fd := range p.funcs {
+		recv, name, _ := strings.Cut(k, ".")
+		if fd.Recv != nil && wireTypes[recv] && (wireMethods[name] || name == "UnmarshalBinary") {
+			keys = append(keys, k)
+		}
+	}
+	keys = append(keys, "buffer.get", "buffer.getAny", "buffer.atEnd", "buffer.Err", "vbint.ReadFrom", "fixedHeader.ReadRemaining")
+	sort.Strings(keys)
+	bad := wireHygiene(p, keys)
+	var b strings.Builder
+	b.WriteString("(* generated by tools/gosync (wire.go) - do not edit *)\nFrom Coq Require Import List String.\nImport ListNotations.\nLocal Open Scope string_scope.\n\n")
+	b.WriteString("(* translated functions in which a builtin (len, copy, make, ...) or one of the packages binary,\n   io, fmt is not what its name says - the statement translators match text *)\nDefinition g_wire_unhygienic : list string :=\n  [")
+	for i, k := range bad {
+		if i > 0 {
+			b.WriteString("; ")
+		}
+		fmt.Fprintf(&b, "%q", k)
+	}
+	fmt.Fprintf(&b, "].\nDefinition g_wire_translated : nat := %d.\n\n", len(keys))
+	b.WriteString("Lemma sync_wire_hygiene : g_wire_unhygienic = [] /\\ g_wire_translated = 43.\nProof. split; reflexivity. Qed.\n")
+	os.WriteFile(filepath.Join(out, "SyncHygiene.v"), []byte(b.String()), 0o644)
 }
